@@ -441,7 +441,8 @@ def boundary_cases():
 
 
 def _rows(items, per=16):
-    """join statements, `per` to a line (the line counter itself has a 16-bit limit: finding D153)."""
+    """join statements, `per` to a line (keeps the texts short; texts with more than 65535 lines are the `lines_*` and
+    `*_per_line` cases)."""
     return "".join(x + ("\n" if i % per == per - 1 else "") for i, x in enumerate(items))
 
 
@@ -465,8 +466,18 @@ def big_boundary_cases():
     out.append(("jump_65k", "fn f(c) { if c {\n" + "1 + 2 + 3 + 4;\n" * 9000 + "} }\n", True, None))
     out.append(("jump_70k", "fn f(c) { if c {\n" + "1 + 2 + 3 + 4;\n" * 15000 + "} }\n", True, None))
     out.append(("loop_70k", "fn f(c) { while c {\n" + "1 + 2 + 3 + 4;\n" * 15000 + "} }\n", True, None))
-    out.append(("lines_65534", "\n" * 65534 + "print(1);\n", True, None))
-    out.append(("labels_65535", "fn f(c) {\n" + _rows(["if c {}" for _ in range(65535)]) + "}\n", True, None))
+    # line numbers are stored as u16: exact up to 65535, saturated beyond (was finding D153: `line as u16 + 1` overflowed)
+    for n in (65533, 65534, 65535, 65536, 70000, 140000):
+        out.append(("lines_%d" % n, "\n" * n + "print(1);\n", True, None))
+    # one statement per line, past line 65535, together with another limit
+    out.append(("constants_per_line_65537", "fn f() {\n" + "".join("%d.5;\n" % i for i in range(65537)) + "}\n", True, None))
+    out.append(("stmts_per_line_70000", "fn f(c) {\n" + "c;\n" * 70000 + "if c { return 1; }\n}\n", True, None))
+    # jump targets per function: at most 65535 (was finding D154: `todo!()` beyond)
+    for n in (65534, 65535, 65536, 65537):
+        out.append(("labels_%d" % n, "fn f(c) {\n" + _rows(["if c {}" for _ in range(n)]) + "}\n", True, None))
+    for n in (32767, 32768, 40000):
+        out.append(("ifelse_%d" % n, "fn f(c) {\n" + _rows(["if c {} else {}" for _ in range(n)], 4) + "}\n", True, None))
+    out.append(("while_labels_40000", "fn f(c) {\n" + _rows(["while c {}" for _ in range(40000)], 8) + "}\n", True, None))
     return out
 
 
@@ -499,6 +510,12 @@ SNIPPETS = ["break;", "continue;", "return 1;", "return;", "self;", "super.m();"
             "class H : x<number> {}", "class H<T> : x<T, T[]> { f: (a: T) -> T; }", "trait U<T> { m<V>(a: V) -> T | nil; }",
             "type Q<T: x> = T[] | nil & any;", "let u: x<number>[] = [];", "fn w(a: x | nil, b: (c: x) -> x) -> x[] { return []; }",
             "let lam = |a: x<y>| -> x { return a; };",
+            # shapes of repaired front-end defects (D151/D31 declaration order, D152/D21 loop depth): judged like everything else
+            "for x in [x] {}", "for x in (|| x)() { x; }", "for x in [|| x] { let x = 1; }", "fn fx() { let x = [1]; fn gx() { for x in x {} } }",
+            "try {} catch x: x {}", "try {} catch Error {}", "try {} catch x { x; }", "try {} catch x: Error { let f = || x; }",
+            "while false { let f = || { break; }; }", "for i in [1] { let f = |a| { continue; }; }", "while false { let f = || { while false { break; } }; break; }",
+            "for i in [1] { [1].iter().each(|v| { break; }); }", "while false { fn bad( { } }", "for i in [] { fn g() 6 { continue; } g(); }",
+            "while false { fn g(a { } break; }", "while false { class K { m( { } } continue; }", "while false { fn g() { fn h( } break; }",
             "'${x}';", "\"${|| { return 1; }}\";", "\"${x ? 1 : 2}${'${x}'}\";", "exit(0);", "print;", "print(print);", "assert(true);"]
 
 
@@ -785,12 +802,14 @@ class Skeleton:
             return ("b", self.items(d + 1, list(env)))
         if k < 0.9:
             x = self.decl_name(env)
-            # mostly iterate over something else than the loop variable (the other case is defect D151)
-            it_env = env if self.r.random() < 0.8 else env + [x]
+            # the iterable is outside the scope of the loop variable: in a third of the loops it mentions that name anyway
+            # (an outer declaration of the same name, or an undeclared name: a diagnostic)
+            it_env = env if self.r.random() < 0.65 else env + [x, x]
             return ("r", x, self.fresh(), self.expr_items(d, it_env), self.items(d + 1, env + [x]))
-        n = self.decl_name(env)
-        cls = self.r.choice([50, 50, 52]) if self.r.random() < 0.7 else self.use_name(env + [n])
-        return ("c", n, self.fresh(), cls, self.items(d + 1, env + [n]))
+        n = self.decl_name(env) if self.r.random() < 0.9 else 50     # `catch Error …`: the variable shadows the global class
+        cls = self.r.choice([50, 50, 52]) if self.r.random() < 0.6 else self.use_name(env + [n, n])
+        # `catch e { }` (no class) looks the default class `Error` up: same events as `catch e: Error { }`
+        return ("c", n, self.fresh(), cls, self.items(d + 1, env + [n]), cls == 50 and self.r.random() < 0.4)
 
     def items(self, d, env=None):
         env = [] if env is None else env
@@ -846,7 +865,8 @@ def skel_src(items, ind=0):
         elif t == "r":
             out.append("%sfor %s in [%s] {\n%s%s}" % (pad, _nm(x[1]), ", ".join(expr(e) for e in x[3]), skel_src(x[4], ind + 1), pad))
         else:
-            out.append("%stry { } catch %s: %s {\n%s%s}" % (pad, _nm(x[1]), _nm(x[3]), skel_src(x[4], ind + 1), pad))
+            cls = "" if len(x) > 5 and x[5] else ": " + _nm(x[3])
+            out.append("%stry { } catch %s%s {\n%s%s}" % (pad, _nm(x[1]), cls, skel_src(x[4], ind + 1), pad))
     return "".join(o + "\n" for o in out)
 
 
